@@ -473,7 +473,10 @@ def _range_feat(s):
 def _ranges_worker(arg):
     recs, seed, eseed = arg
     from pycoin.symbols.btc import network as BTC
-    from pycoin.key.subpaths import subpaths_for_path_range
+    try:
+        from pycoin.key.subpaths import subpaths_for_path_range
+    except ImportError:          # (the iterator of strings is an anchor of the property, but subkeys() is the API)
+        subpaths_for_path_range = None
     tree = _G.get("tree_for_ranges") or {}
     M = BTC.keys.bip32_seed(seed)
     MP = M.public_copy()
@@ -517,8 +520,10 @@ def _ranges_worker(arg):
             if p in tree:
                 _cmp(fails, "ranges|evaluated", feat, tree[p]["prv"], g, det)
         # the same through the iterator of strings, on a public node when nothing is hardened
-        rf, strs = _refused(lambda: list(subpaths_for_path_range(s)))
-        if rf or len(strs) != len(want):
+        rf, strs = _refused(lambda: list(subpaths_for_path_range(s))) if subpaths_for_path_range else (False, None)
+        if subpaths_for_path_range is None:
+            pass
+        elif rf or len(strs) != len(want):
             fails.append(("C09|ranges|subpaths_for_path_range|%s" % feat, "yields %s, want %d paths" % ("an exception" if rf else len(strs), len(want)), det))
         elif not any(h for p in want for h, v in p):
             for p, t in zip(want, strs):
@@ -1156,24 +1161,30 @@ def selftests(ctx, first_session, traces):
     if traces:
         base = next(t for t in traces if sum(1 for e in t["ev"] if e["op"] == "derive" and e["res"] > 0) >= 2
                     and any(e["op"] == "text" for e in t["ev"]))
-        muts = [copy.deepcopy(base) for _ in range(5)]
+        muts = []
 
-        def nth(t, op, pred=lambda e: True):
-            return next(e for e in t["ev"] if e["op"] == op and pred(e))
-        e = nth(muts[0], "derive", lambda e: e["res"] > 0)
-        e["node"]["chain"][0] ^= 1                              # a wrong chain code
-        e = nth(muts[1], "derive", lambda e: e["res"] > 0)
-        e["node"]["depth"] += 1                                 # depth off by one
-        e = nth(muts[2], "derive", lambda e: e["res"] > 0 and e["facts"]["hmac"])
-        m = e["facts"]["hmac"][0][1]
-        m[-4:] = m[-4:][::-1]                                    # the HMAC'd index bytes in the other order
-        e["facts"]["hmac"][0][2] = list(_hmac_sha512(bytes(e["facts"]["hmac"][0][0]), bytes(m)))
-        e = nth(muts[3], "text")
-        e["blob"][4] ^= 1                                       # depth byte of the serialisation
-        e = nth(muts[4], "derive", lambda e: e["res"] > 0)
-        e["node"]["pfp"][3] ^= 1                                # parent fingerprint
+        def mutant(op, pred, change):
+            t = copy.deepcopy(base)
+            e = next((e for e in t["ev"] if e["op"] == op and pred(e)), None)
+            if e is not None:
+                change(e)
+                muts.append(t)
+        ok_derive = lambda e: e["res"] > 0
+        # a wrong chain code (decidable in the trace only where the library's HMAC call was observed)
+        mutant("derive", lambda e: e["res"] > 0 and e["facts"]["hmac"], lambda e: e["node"]["chain"].__setitem__(0, e["node"]["chain"][0] ^ 1))
+        mutant("derive", ok_derive, lambda e: e["node"].__setitem__("depth", e["node"]["depth"] + 1))          # depth off by one
+
+        def swap_index_bytes(e):                                  # the HMAC'd index bytes in the other order
+            row = e["facts"]["hmac"][0]
+            row[1][-4:] = row[1][-4:][::-1]
+            row[2] = list(_hmac_sha512(bytes(row[0]), bytes(row[1])))
+        # (only when the library's HMAC calls were observed at all, and the index is not a palindrome)
+        mutant("derive", lambda e: e["res"] > 0 and e["facts"]["hmac"] and e["facts"]["hmac"][0][1][-4:] != e["facts"]["hmac"][0][1][-4:][::-1],
+               swap_index_bytes)
+        mutant("text", lambda e: True, lambda e: e["blob"].__setitem__(4, e["blob"][4] ^ 1))                   # depth byte of the serialisation
+        mutant("derive", ok_derive, lambda e: e["node"]["pfp"].__setitem__(3, e["node"]["pfp"][3] ^ 1))        # parent fingerprint
         rej = validate_traces(ctx, [base] + muts)
-        ctx.selftest("trace_rejects_corrupted_field", rej == [1, 2, 3, 4, 5])
+        ctx.selftest("trace_rejects_corrupted_field", len(muts) >= 3 and rej == list(range(1, len(muts) + 1)))
 
 
 def replay(ctx, obj):
